@@ -850,7 +850,7 @@ func (vfs *MemFS) Rename(oldpath, newpath string) error {
 			return &os.LinkError{Op: op, Old: oldpath, New: newpath, Err: nErr}
 		}
 
-	case *fileNode:
+	case *fileNode, *symlinkNode:
 		if nChild == nil {
 			break
 		}
@@ -860,6 +860,8 @@ func (vfs *MemFS) Rename(oldpath, newpath string) error {
 			nc.mu.Lock()
 			nc.delete()
 			nc.mu.Unlock()
+		case *symlinkNode:
+			// a symbolic link is replaced like a file, there is nothing to release.
 		default:
 			err := error(avfs.ErrFileExists)
 			if vfs.OSType() == avfs.OsWindows {
